@@ -183,6 +183,11 @@ def miserTopNoReset (f : List Rat → Rat) (pw23 : Rat → Rat) (region : List R
   | some o => some (mcVolume region * o.ave, o.pts, o.knife)
   | none => none
 
+/-- guards of `Integrate_MC` (fix 52605b2), tested before any generator is seeded or the integrand is called: the region
+    must list a lower and an upper corner (non-empty, even length), the budget must be at least 1 (Vegas: at least 2) -/
+def integrateMCRejects (regionLen : Nat) (ncalls : Int) (vegas : Bool) : Bool :=
+  regionLen = 0 || regionLen % 2 != 0 || decide (ncalls < 1) || (vegas && decide (ncalls < 2))
+
 /-- `Integrate_MC_Miser` as a transition of the file-static `iran`: it is set to 0 at ENTRY, before the first use
     (as coded), and left at whatever value the run ended with; a call made while another Miser integration is running
     (from inside its integrand) therefore starts from 0 whatever the enclosing run has done to the static -/
